@@ -14,7 +14,7 @@ ID = 'C06'
 LEVEL = 'exploration'
 EXHAUSTIVE = False
 EXHAUSTIVE_SCOPE = 'every (world size, divisor k, colocate, cost family) up to the bound is visited, but cost dictionaries are drawn and for W>16 only 5 ranks are instantiated, so the space is not claimed exhaustive'
-RULE = ('exhaustive over world sizes W (quick 1..64, thorough 1..320, plus 98/147/196), every divisor k as k/W, colocate on/off, '
+RULE = ('exhaustive over world sizes W (quick 1..64 plus 98,147,196,258,300,512,1024; thorough 1..320 plus 384..2048), every divisor k as k/W, colocate on/off, '
         'cost families (uniform, ties, zeros, geometric, random; 1..2W+1 layers), every local rank for W<=16 else {0,1,W//2,W-1,random}; '
         'construction through KFACPreconditioner (float and enum) with world size/rank patched; '
         'non-trivial: 1<k<W or cost ties; distinct = (W,k,colocate,family); repeated under PYTHONHASHSEED 0/1/4242 with equal digests required')
@@ -161,7 +161,9 @@ FAMS = ['uniform', 'ties', 'zeros', 'geometric', 'random']
 
 def worlds(tier):
     base = list(range(1, tier_value(tier, 65, 321)))
-    return base + [w for w in (98, 147, 196) if w not in base]
+    # a few large worlds in every tier (rank values beyond small-integer ranges, many groups), incl. the highest ranks
+    extra = (98, 147, 196, 258, 300, 512, 1024) if tier == 'quick' else (384, 512, 600, 1024, 2048)
+    return base + [w for w in extra if w not in base]
 
 
 def plan(tier, seed):
